@@ -39,6 +39,20 @@ ASYNC_HOLDERS = ['buffer', 'delay', 'rate_limit', 'map_async', 'timed_window', '
 
 
 def one_case(rng, tier):
+    if rng.random() < 0.08:
+        # holders and droppers over None / falsy / string / nested-tuple elements
+        from .. import aprogs
+        g = aprogs.XAGen(rng, async_ops=ASYNC_HOLDERS, max_nodes=6)
+        prog = g.program(min_async=1)
+        return {'prog': prog, 'producers': g.producers(prog, max_total=16), 'awaiting': rng.random() < 0.7,
+                'family': 'async', 'inputs': [], 'mode': 'vloop', 'exotic': True}
+    if rng.random() < 0.08:
+        xg = progs.XGen(rng, max_nodes=7)
+        prog = xg.program()
+        inputs = xg.inputs(prog)
+        for it in inputs:
+            it[2] = max(1, it[2])
+        return {'prog': prog, 'inputs': inputs, 'mode': 'async' if rng.random() < 0.5 else 'plain', 'family': 'sync', 'exotic': True}
     if rng.random() < 0.35:
         from .. import aprogs
         g = aprogs.AGen(rng, async_ops=ASYNC_HOLDERS, max_nodes=7, fail_prob=0.0, p_async=0.5)
